@@ -66,8 +66,61 @@ impl std::error::Error for ChainErr {
     }
 }
 
+// ------------------------------------------------------------------ re-entrant values
+
+thread_local! {
+    static REENT_DEPTH: std::cell::Cell<u32> = const { std::cell::Cell::new(0) };
+}
+/// Installed by the harness binary: emit a small event through the sink under test.
+pub static REENT_HOOK: std::sync::OnceLock<Box<dyn Fn(u64) + Send + Sync>> = std::sync::OnceLock::new();
+
+fn reent_fire(id: u64) {
+    if REENT_DEPTH.with(|d| d.get()) > 0 {
+        return;
+    }
+    struct Reset;
+    impl Drop for Reset {
+        fn drop(&mut self) {
+            REENT_DEPTH.with(|d| d.set(0));
+        }
+    }
+    REENT_DEPTH.with(|d| d.set(1));
+    let _reset = Reset;
+    if let Some(h) = REENT_HOOK.get() {
+        h(id);
+    }
+}
+
+/// A value that emits another event (through the hook) whenever it is rendered, by
+/// Display or by sval; a depth flag stops the recursion.
+#[derive(Debug, Clone, PartialEq)]
+pub struct Reent {
+    pub id: u64,
+}
+impl Reent {
+    pub fn text(&self) -> String {
+        format!("reent-{}", self.id)
+    }
+    pub fn inner_mdl(id: u64) -> String {
+        format!("c13::inner::r{id}")
+    }
+}
+impl std::fmt::Display for Reent {
+    fn fmt(&self, f: &mut std::fmt::Formatter) -> std::fmt::Result {
+        reent_fire(self.id);
+        f.write_str(&self.text())
+    }
+}
+impl sval::Value for Reent {
+    fn stream<'sval, S: sval::Stream<'sval> + ?Sized>(&'sval self, stream: &mut S) -> sval::Result {
+        reent_fire(self.id);
+        stream.value_computed(self.text().as_str())
+    }
+}
+
 #[derive(Debug, Clone)]
 pub enum CV {
+    Reent(Reent),
     Null,
     Bool(bool),
     I64(i64),
@@ -104,6 +157,17 @@ impl CV {
         }
     }
 
+    /// Ids of the re-entrant values inside this value.
+    pub fn reent_ids(&self, out: &mut Vec<u64>) {
+        match self {
+            CV::Reent(r) => out.push(r.id),
+            CV::Seq(v) => v.iter().for_each(|c| c.reent_ids(out)),
+            CV::Map(v) => v.iter().for_each(|(_, c)| c.reent_ids(out)),
+            CV::Some(b) => b.reent_ids(out),
+            _ => {}
+        }
+    }
+
     /// The `emit::Value` an application would pass for this value.
     pub fn to_value(&self, fw: Fw) -> emit::Value<'_> {
         use emit::value::ToValue;
@@ -117,6 +181,10 @@ impl CV {
             CV::F64(v) => emit::Value::from(*v),
             CV::Str(v) => emit::Value::from(v.as_str()),
             CV::Err(e) => emit::Value::capture_error(e),
+            CV::Reent(r) => match fw {
+                Fw::Sval => emit::Value::from_sval(r),
+                Fw::Serde => emit::Value::capture_display(r),
+            },
             CV::Level(l) => l.to_value(),
             CV::TraceId(l) => l.to_value(),
             CV::SpanId(l) => l.to_value(),
@@ -132,6 +200,7 @@ impl CV {
     pub fn text(&self) -> Option<String> {
         Some(match self {
             CV::Str(s) => s.clone(),
+            CV::Reent(r) => r.text(),
             CV::Enum(En::Unit) => "Unit".to_string(),
             CV::Err(e) => e.msg.clone(),
             CV::Level(l) => l.to_string(),
@@ -157,6 +226,7 @@ impl CV {
         use serde_json::json;
         match self {
             CV::Null => json!(null),
+            CV::Reent(r) => json!({"reentrant": r.id}),
             CV::Bool(b) => json!({"bool": b}),
             CV::I64(v) => json!({"i64": v.to_string()}),
             CV::U64(v) => json!({"u64": v.to_string()}),
@@ -184,6 +254,7 @@ impl sval::Value for CV {
     fn stream<'sval, S: sval::Stream<'sval> + ?Sized>(&'sval self, stream: &mut S) -> sval::Result {
         match self {
             CV::Null => stream.null(),
+            CV::Reent(r) => stream.value(r),
             CV::Bool(v) => stream.bool(*v),
             CV::I64(v) => stream.i64(*v),
             CV::U64(v) => stream.u64(*v),
@@ -231,6 +302,7 @@ impl serde::Serialize for CV {
         use serde::ser::{SerializeMap, SerializeSeq};
         match self {
             CV::Null => s.serialize_unit(),
+            CV::Reent(r) => s.collect_str(r),
             CV::Bool(v) => s.serialize_bool(*v),
             CV::I64(v) => s.serialize_i64(*v),
             CV::U64(v) => s.serialize_u64(*v),
@@ -279,6 +351,14 @@ const F64S: &[f64] = &[
     123456789.125, 9007199254740993.0, 4.35, 2.2250738585072011e-308,
 ];
 pub const STRS: &[&str] = &["", "plain", "with \"quotes\" and \\ backslash / slash", " leading and trailing ", "{not a hole}", "a,b;c=d"];
+/// strings that look like a value of another type: they must stay the strings they are
+pub const LOOKALIKES: &[&str] = &[
+    "4bf92f3577b34da6a3ce929d0e0e4736", "4BF92F3577B34DA6A3CE929D0E0E4736", "4bF92f3577B34da6A3ce929D0e0E4736",
+    "12345678901234567890123456789012", "00000000000000000000000000000001", "d41d8cd98f00b204e9800998ecf8427e",
+    "00f067aa0ba902b7", "00F067AA0BA902B7", "00f067AA0ba902B7", "1234567890123456", "ffffffffffffffff",
+    "true", "false", "1", "-1", "1.5", "1e3", "NaN", "inf", "null", "None", "info", "ERROR", "warn",
+    "2024-01-01T00:00:00Z", "1970-01-01T00:00:00.000000001Z", "span", "metric", "[1,2]", "{\"a\":1}", "0x10",
+];
 pub const CTLS: &[&str] = &["\u{0}", "line1\nline2\r\n\ttab", "\u{1}\u{2}\u{1f}\u{7f}", "\u{1b}[31mred\u{1b}[0m", "bell\u{7}back\u{8}ff\u{c}"];
 pub const UNIS: &[&str] = &["h\u{e9}llo w\u{f6}rld", "\u{2713} \u{1F600} \u{1D518}", "\u{FEFF}bom", "\u{2028}ls\u{2029}ps", "\u{E000}\u{FFFD}\u{10FFFF}", "\u{65e5}\u{672c}\u{8a9e}", "e\u{301}\u{200d}\u{1F468}\u{200d}\u{1F469}"];
 
@@ -309,6 +389,7 @@ impl Pool {
     pub fn string(&mut self) -> String {
         match self.rng.below(8) {
             0 => "x".repeat(self.long),
+            1 | 2 => self.pick(LOOKALIKES).to_string(),
             _ => self.pick(STRS).to_string(),
         }
     }
@@ -375,6 +456,7 @@ impl Pool {
             "NaN" => CV::F64(if self.rng.below(2) == 0 { f64::NAN } else { -f64::NAN }),
             "Inf" => CV::F64(if self.rng.below(2) == 0 { f64::INFINITY } else { f64::NEG_INFINITY }),
             "Str" => CV::Str(self.string()),
+            "Reent" => CV::Reent(Reent { id: self.rng.next() % 1_000_000_000_000 }),
             "StrCtl" => CV::Str(self.pick(CTLS).to_string()),
             "StrUni" => CV::Str(self.pick(UNIS).to_string()),
             "Bytes" => CV::Bytes(match self.rng.below(5) {
